@@ -84,7 +84,7 @@ func (t *tracer) run(ctx context.Context) {
 				unsch.ok <- struct{}{}
 			}
 		case trace := <-t.traces:
-			verifAt("tracer.take")
+			verifAt("tracer.take", trace)
 			for _, subscriber := range t.subscribers {
 				verifAt("tracer.deliver")
 				subscriber <- trace
